@@ -28,3 +28,5 @@ mod c29;
 pub mod models;
 #[cfg(kani)]
 mod c13;
+#[cfg(kani)]
+mod c27;
